@@ -262,7 +262,22 @@ def judge(pid, beh, obs):
         if dangling:
             return "viol", [], dangling, "toctree entries without a generated target"
         if got != exp:
-            return "viol", exp, got, "index.rst titles/toctrees differ from the processed files and sub-directories"
+            # what C14 states about titles: the top index is titled by the prefix, a sub-directory's index names that
+            # directory; the exact composition (prefix + separator + relative path) is the code's choice -> drift
+            loose_ok = set(got) == set(exp)
+            for k in exp:
+                if not loose_ok:
+                    break
+                g = got.get(k, {})
+                if g.get("entries") != exp[k]["entries"] or "malformed" in g or "error" in g:
+                    loose_ok = False
+                elif k == "" and g.get("title") != exp[k]["title"]:
+                    loose_ok = False
+                elif k != "" and os.path.basename(k) not in (g.get("title") or ""):
+                    loose_ok = False
+            if not loose_ok:
+                return "viol", exp, got, "index.rst titles/toctrees differ from the processed files and sub-directories"
+            return "ok-drift", exp, got, None
         return "ok", None, None, None
     raise ValueError(pid)
 
@@ -276,7 +291,9 @@ def _chunk(args):
             obs = run_case(beh, sb)
             v, exp, got, why = judge(pid, beh, obs)
             drift = None
-            if beh["outcome"] == "ok" and obs["exc"] is None:
+            if v == "ok-drift":
+                v, drift = "ok", {"index_titles": {"model": exp, "observed": got}}
+            if drift is None and beh["outcome"] == "ok" and obs["exc"] is None:
                 if cfg_has_out(beh) and obs["out_files"] != impl_out_files(beh):
                     drift = {"impl_files": impl_out_files(beh), "observed": obs["out_files"]}
                 idocs = ["/".join(e["dir"] + [e["file"]]) for e in beh["effects"] if e["e"] in ("page", "print")]
